@@ -249,7 +249,7 @@ theorem visit_exists {lv : Level} {n k : Nat} (hg : GoodLevel lv n k) (hwf : lv.
     cases hgn : lv.g.getNode u with
     | none => rw [hgn] at this; cases this
     | some nd => exact ⟨nd, rfl⟩
-  unfold visit
+  unfold visit visitWith
   simp only [bind, Outcome.bind, hcur, hw, Outcome.ofOption]
   cases hd : lv.g.specs.directed
   · obtain ⟨ht, hl⟩ := hdeg.undir hd
